@@ -368,7 +368,11 @@ func (ex *Exec) concretize(t *Term, lo, hi int, tag string) int {
 		return int(t.Signed())
 	}
 	n := hi - lo + 1
-	if n <= 0 || n > 128 {
+	fast := t.Op == "var" && !ex.touched[t.S] && ex.pos >= len(ex.decisions)
+	if _, ranged := ex.ranges[t.S]; !ranged {
+		fast = false
+	}
+	if n <= 0 || (n > 128 && !fast && ex.pos >= len(ex.decisions)) || n > 8192 {
 		ex.unsupported("concretize %s: range [%d,%d]", tag, lo, hi)
 	}
 	conds := make([]*Term, n)
